@@ -215,25 +215,26 @@ Section Persist.
        excel_compiler._excel_file_md5_digest = data['excel_hash']; del data['excel_hash']  (274-275)  KeyError
        excel_compiler.extra_data = data                            (276)
      the file name default (the stem of the path) is not modelled: VNone *)
+  Definition load (f : file) (l : list (nat * pyval)) (h : pyval) : pmodel :=
+    let W := imp_wb l in
+    let code := imp_codes l in
+    let sem := sem_of (g_range G) code in
+    let s := fold_left (fun s n => build W sem s n) (map fst l) (init W) in
+    {| pm_wb := W; pm_code := code; pm_state := s;
+       (* cells in file order, then the range nodes made by _process_gen_graph *)
+       pm_order := map fst l ++ filter (fun n => st_built s n && g_range G n) (seq 0 (g_n G));
+       pm_cycles := match d_get f k_cycles with Some (TV c) => c | _ => VBool false end;
+       pm_filename := match d_get f k_filename with Some (TV n) => n | _ => VNone end;
+       pm_hash := h;
+       pm_extra := Some (d_del (d_del (d_del f k_cycles) k_cells) k_hash) |}.
+
   Definition from_text (f : file) : res pmodel :=
     match d_get f k_cells with
     | Some (TCells l) =>
         if existsb (fun x => g_range G (fst x) || negb (fst x <? g_n G)) l then Raise Unmodelled
         else
         match d_get f k_hash with
-        | Some (TV h) =>
-            let W := imp_wb l in
-            let code := imp_codes l in
-            let sem := sem_of (g_range G) code in
-            let s := fold_left (fun s n => build W sem s n) (map fst l) (init W) in
-            Ok {| pm_wb := W; pm_code := code; pm_state := s;
-                  (* cells in file order, then the range nodes made by _process_gen_graph *)
-                  pm_order := map fst l ++
-                              filter (fun n => st_built s n && g_range G n) (seq 0 (g_n G));
-                  pm_cycles := match d_get f k_cycles with Some (TV c) => c | _ => VBool false end;
-                  pm_filename := match d_get f k_filename with Some (TV n) => n | _ => VNone end;
-                  pm_hash := h;
-                  pm_extra := Some (d_del (d_del (d_del f k_cycles) k_cells) k_hash) |}
+        | Some (TV h) => Ok (load f l h)
         | Some (TCells _) => Raise Unmodelled
         | None => Raise KeyError
         end
